@@ -31,7 +31,7 @@ def check(run):
                 continue
             parts = o.split(" ")
             if len(parts) > 4:
-                oracle_fail.append((l, "all destinations agree", o))
+                oracle_fail.append((l, "all destinations agree; same bytes whichever integer type stores a value", o))
                 continue
             text = bytes.fromhex(parts[0]) if parts[0] != "-" else b""
             if not (int(parts[1]) == int(parts[2]) == len(text)):
